@@ -90,7 +90,8 @@ class Instantiator:
 
         t = self.case["tables"][name]
         schema = {c: pl_type(ty) for c, ty in t["cols"]}
-        df = pl.DataFrame(t["rows"], schema=schema, orient="row")
+        import common
+        df = pl.DataFrame([[common.dec_value(v) for v in r] for r in t["rows"]], schema=schema, orient="row")
         if self.backend == "polars":
             tbl = pdt.Table(df, name=name)
         elif self.backend in ("postgres", "mssql"):
@@ -135,9 +136,11 @@ class Instantiator:
         if k == "str":
             return e[1]
         if k == "lit":
-            return e[1]
+            import common
+            return common.dec_value(e[1])
         if k == "litc":                  # an explicit pdt.lit(...) wrapper
-            return pdt.lit(e[1])
+            import common
+            return pdt.lit(common.dec_value(e[1]))
         if k == "fn":
             opvar, args = e[1], [self.expr(a) for a in e[2]]
             ctx = e[3] if len(e) > 3 else {}
